@@ -464,7 +464,15 @@ impl ApplicationHeader {
                     {
                         Some(monitoring.to_string())
                     } else {
-                        None
+                        // Not a monitoring code: it (and an obsolescence period after it) would
+                        // be dropped from the parsed header
+                        return Err(ParseError::InvalidBlockStructure {
+                            block: "2".to_string(),
+                            message: format!(
+                                "Invalid delivery monitoring code in Input Block 2: '{}'",
+                                monitoring
+                            ),
+                        });
                     }
                 } else {
                     None
